@@ -69,6 +69,12 @@ var orderedRanges = []orderedRange{
 	{file: "pkg/blobserver/encrypt/meta.go",
 		from: "const (\n\t// FullMetaBlobSize is the number of lines at which we stop compacting a meta blob.\n",
 		to:   "var (\n\t// FullMetaBlobSize is the number of lines at which we stop compacting a meta blob.\n", noImport: true},
+	// (page size of blobserver.EnumerateAll and the number of pending blobs
+	// one round of the sync loop takes: variables, so that a run can lower
+	// them and later pages / later rounds carry data in short histories)
+	{file: "pkg/blobserver/enumerate.go", from: "\tconst batchSize = 1000\n", to: "\tbatchSize := verifEnumBatch\n", noImport: true},
+	{file: "pkg/server/sync.go", from: "\t\tconst maxBatch = 1000\n", to: "\t\tmaxBatch := verifPendingBatch\n", noImport: true},
+	{file: "pkg/server/sync.go", from: "\tworkch := make(chan blob.SizedRef, 1000)\n", to: "\tworkch := make(chan blob.SizedRef, verifSyncWorkBuf)\n", noImport: true},
 	{file: "pkg/server/sync.go",
 		from: "for br, size := range sh.needCopy {",
 		to:   "for _, br := range verifsimcore.SortedKeys(sh.needCopy) {\n\t\t\tsize := sh.needCopy[br]"},
